@@ -32,6 +32,8 @@ struct Seen {
     writes: u64,
     /// state seen by the last `tick`
     tick_pos: u64,
+    /// state seen by the last `reset`: (position, finished)
+    reset_saw: Option<(u64, bool)>,
 }
 
 #[derive(Clone)]
@@ -46,8 +48,10 @@ impl ProgressTracker for Tracker {
         s.ticks += 1;
         s.tick_pos = state.pos();
     }
-    fn reset(&mut self, _state: &ProgressState, _now: Instant) {
-        self.0.lock().unwrap().resets += 1;
+    fn reset(&mut self, state: &ProgressState, _now: Instant) {
+        let mut s = self.0.lock().unwrap();
+        s.resets += 1;
+        s.reset_saw = Some((state.pos(), state.is_finished()));
     }
     fn write(&self, state: &ProgressState, w: &mut dyn std::fmt::Write) {
         let mut s = self.0.lock().unwrap();
@@ -284,6 +288,10 @@ fn run_keys(c: &KeyCase) -> CaseResult {
         );
         ensure!(s.ticks >= trk_ticks, "tracker", "{ctx}: custom key received {} tick notifications, the bar was ticked/updated {trk_ticks} times", s.ticks);
         ensure!(s.resets >= resets, "tracker", "{ctx}: custom key received {} reset notifications for {resets} reset() calls", s.resets);
+        if matches!(op, Op::Reset) {
+            // reset together with the bar: the notification carries the state of the bar after the reset
+            ensure!(s.reset_saw == Some((0, false)), "tracker", "{ctx}: the reset notification saw (position, finished) = {:?} instead of the reset bar (0, false)", s.reset_saw);
+        }
         eq!("trk", format!("T{}R{}", s.ticks, s.resets), "tracker");
         if matches!(op, Op::Inc(_) | Op::Dec(_) | Op::SetPos(_) | Op::Update(_)) {
             ensure!(s.tick_pos == pos, "tracker", "{ctx}: the tick notification saw position {} instead of {pos}", s.tick_pos);
